@@ -48,6 +48,7 @@ def install_models():
     symbytes.install(m)
     if hasattr(m, 'BytesIO'): m.BytesIO = SymBytesIO
   msg_mod.Long = stubs.sym_int
+  tmux_mod.Deadline = msg_mod.Deadline      # (the stack scenarios replace it by a zero-writing stub; undo that here)
 
 
 def jobs(tier):
